@@ -18,7 +18,10 @@ Inductive case :=
            (steps : list astep)
 | CCookie (syn : hseg) (ts mtuMss : Z) (synack : hframe) (steps : list cstep)
 | CStray (s : hseg) (frames : list hframe)
-| CListen (s : hseg) (frames : list hframe) (accepted : bool).
+| CListen (s : hseg) (frames : list hframe) (accepted : bool)
+(* an established connection receives a RST (sequence number inside the receive window or far
+   outside); frames emitted in response and the endpoint state afterwards (4 connected, 6 error) *)
+| CEstRst (inWindow : bool) (s : hseg) (frames : list hframe) (estAfter : Z).
 
 (* ---------------------------------------------------------------- equality on observations *)
 Definition so_eqb (a b : synopts) : bool :=
@@ -132,6 +135,10 @@ Definition corr (c : case) : Z :=
       | LIgnore => if hfs_eqb frames [] && negb acc then 0 else 1
       | _ => 2
       end
+  | CEstRst inw s frames est =>
+      (* Model.Tcp.handleSegment: acceptable RST -> abortOnReset (no frame, error state);
+         otherwise ignored (Proofs/TcpRstP.v) *)
+      if hfs_eqb frames [] && (est =? (if inw then estError else estConnected)) then 0 else 1
   end.
 
 (* ---------------------------------------------------------------- property monitor *)
@@ -207,6 +214,7 @@ Definition spec (c : case) : Z :=
       if has (hs_flags s) fRst then (if hfs_eqb frames [] then 0 else 1)
       else if resetOK s frames then 0 else 1
   | CListen s frames acc => if acc then 1 else 0
+  | CEstRst _ s frames _ => if hfs_eqb frames [] then 0 else 1     (* a reset is never answered *)
   end.
 
 Definition tag (c : case) : Z :=
@@ -216,6 +224,7 @@ Definition tag (c : case) : Z :=
   | CCookie _ _ _ _ steps => if existsb (fun x => match x with (_, _, a, _, _) => a end) steps then 5 else 6
   | CStray s _ => if has (hs_flags s) fRst then 0 else 7
   | CListen _ _ _ => 8
+  | CEstRst inw _ _ _ => if inw then 9 else 10
   end.
 
 Definition judge (c : case) : list Z := [corr c; spec c; tag c].
